@@ -159,6 +159,10 @@ func (n *numRun) one(sc *gen.Scenario, order []mrepo.ID, style sizes.NameStyle, 
 	}
 	if res.Err != nil {
 		sh.C.Outcome("error")
+		if u := res.Unmodelled(); u != "" {
+			sh.C.Violate(explore.Violation{Property: n.prop, Class: "HARNESS/unmodelled-git-command", Msg: "the model git does not implement the read-only command " + u + " (extend harness/modelgit)", Case: caseJSON(sh.Index(), nil)})
+			return &res
+		}
 		mk("error", fmt.Sprintf("scan failed: %v", res.Err))
 		return &res
 	}
